@@ -20,6 +20,11 @@ class Engine(StmtMixin, CallMixin, ExprMixin, EngineBase):
             c.fun(name, asorts, ret)
         for sort in self.m.fields.values():
             c.need(sort)
+        # enum members named in module axioms must be declared even in functions whose body never mentions them
+        import re as _re
+        for en, member in sorted(set(_re.findall(r"\|enum_(\w+)\.(\w+)\|", " ".join(self.m.axioms)))):
+            if f"enum_{en}.{member}" not in c.funs:
+                c.fun(f"enum_{en}.{member}", [], OBJ)
         for name, (asorts, ret) in self.m.defs.items():
             c.fun(name, asorts, ret)
             c.predefined.add(name)
